@@ -58,8 +58,19 @@ def repo_head():
         return "unknown"
 
 
+
+def jsafe(obj):
+    """JSON has no NaN / Infinity literals: floats that are not finite are written as strings."""
+    if isinstance(obj, float):
+        return obj if obj == obj and abs(obj) != float("inf") else repr(obj)
+    if isinstance(obj, dict):
+        return {str(k): jsafe(v) for k, v in obj.items()}
+    if isinstance(obj, (list, tuple)):
+        return [jsafe(v) for v in obj]
+    return obj
+
 def canon(obj):
-    return json.dumps(obj, sort_keys=True, separators=(",", ":"), default=str)
+    return json.dumps(jsafe(obj), sort_keys=True, separators=(",", ":"), default=str)
 
 
 class BuildLock:
@@ -433,7 +444,7 @@ class Check:
                            "broken": [list(b) for b in self.broken],
                            "how_to_replay": f"./check {self.pid} --replay {path}"})
                 with open(path, "w") as f:
-                    json.dump(v2, f, indent=1, default=str)
+                    json.dump(jsafe(v2), f, indent=1, default=str)
                 lines.append(f"VIOLATION property={self.pid} replay={path}")
         elif self.broken:
             rc = 1
@@ -494,7 +505,7 @@ class Check:
             "repo_head": repo_head(),
         }
         with open(os.path.join(EVID, f"{self.pid}.json"), "w") as f:
-            json.dump(ev, f, indent=1, default=str)
+            json.dump(jsafe(ev), f, indent=1, default=str)
 
 
 def match_sig(match, sig):
